@@ -27,7 +27,7 @@ BaseTx == Tx(D(2024, 1, 15), Text(1), << Post(3, <<Amt(1050, 2, 4)>>), Post(2, <
 
 (* ---- value menus ---------------------------------------------------------------------------- *)
 Values == { <<5, 0>>, <<100, 0>>, <<1050, 2>>, <<15, 1>>, <<123456, 2>>, <<1234567, 0>>, <<123456789, 2>>,
-            <<2500, 0>>, <<1, 0>>, <<12345678, 4>>, <<7, 8>>, <<123, 12>>, <<100000, 0>>, <<1000, 3>>, <<125, 3>>, <<5, 1>> }
+            <<2500, 0>>, <<1, 0>>, <<12345678, 4>>, <<7, 8>>, <<123, 12>>, <<100000, 0>>, <<1000, 3>>, <<125, 3>>, <<5, 1>>, <<1234567, 3>> }
 
 AllAmounts(u) ==
     { a \in [neg : BOOLEAN, m : {v[1] : v \in Values}, sc : {v[2] : v \in Values}, n : Notations, comm : 0..Len(Commodities),
